@@ -744,7 +744,7 @@ func keyTaint(fn *ssa.Function, prm *ssa.Parameter, depth int) (map[ssa.Value]bo
 					}
 				case *ssa.Call:
 					// keys := sortedKeys(m): a helper of the package that returns the keys of the map it is handed
-					if h := x.Call.StaticCallee(); h != nil && h.Pkg == fn.Pkg && len(h.Blocks) > 0 && depth < 2 && !x.Call.IsInvoke() {
+					if h := x.Call.StaticCallee(); h != nil && isRepoPkgPath(fnPkgPath(h)) && len(h.Blocks) > 0 && depth < 2 && !x.Call.IsInvoke() {
 						for i, a := range x.Call.Args {
 							src := a
 							if ld, isLd := src.(*ssa.UnOp); isLd && ld.Op == token.MUL {
